@@ -15,6 +15,7 @@ Case shapes:
 """
 import os
 import sys
+import shutil
 import logging
 
 from hypothesis import strategies as st
@@ -32,11 +33,13 @@ RULE = ("Generated terminating programs (FOR/WHILE loops across and inside lines
         "sequential files open for output/append/input, a random-access file with FIELD buffers, "
         "strings and arrays, READ/DATA, DEF FN, RND state, text and CGA graphics screens); every "
         "check_events call made by the interpreter's statement loop while a program runs is one "
-        "interruption point, all points of each program are taken (capped at 90, evenly thinned "
+        "interruption point, all points of each program are taken (capped at 60, evenly thinned "
         "beyond). A program is non-trivial if at least one of its interruption points lies inside "
         "a loop, a subroutine or an error handler, or has a file open; distinct = distinct program "
-        "text. Tampering: every byte position of a real state file (two files in the thorough tier) "
-        "x {one of xor 1/xor 0x80/set 0/set 0xFF (all four in the thorough tier), truncate there}, "
+        "text. Tampering: every byte position of a real state file (quick tier: header, first and "
+        "last 2 kB and every 4th byte between; thorough tier: every byte of two files) "
+        "x {one of xor 1/xor 0x80/set 0/set 0xFF (all four in the thorough tier)}, truncation at "
+        "every 8th byte and throughout the first/last 64 bytes (every byte in the thorough tier), "
         "and all 255 other values for each of the 24 header bytes.")
 ASSUMPTIONS = [
     "interruption points are statement boundaries (where a QUIT signal is noticed), not points "
@@ -52,8 +55,8 @@ TECHNIQUE = ("differential testing: interrupted+resumed vs. uninterrupted run at
              "state files")
 
 BUDGET = 6000
-MAX_K = 90
-REPLAY_STATEMENTS = 12000
+MAX_K = 60
+REPLAY_STATEMENTS = 8000
 VARS = ['A', 'B', 'C', 'Z', 'E', 'EC', 'EL', 'I', 'J', 'W', 'N%', 'D#', 'S$', 'T$', 'U$',
         'R()', 'Q$()', 'G%()']
 KEYS = u'RUN\rSYSTEM\r'
@@ -62,6 +65,42 @@ INFILE = b'alpha,12\r\n"beta, gamma",7\r\n3.5\r\nlast line\r\n'
 
 # --------------------------------------------------------------------------------------------
 # running
+
+class Scratch(object):
+    """
+    One scratch tree per worker process, emptied between runs instead of being re-created (every
+    interruption point needs a clean mount; directory creation dominated the system time).
+    Same interface as harness.Sandbox.
+    """
+
+    _inst = {}
+
+    def __init__(self):
+        self._sb = Sandbox()
+        self.root, self.z = self._sb.root, self._sb.z
+
+    @classmethod
+    def get(cls):
+        sd = cls._inst.get(os.getpid())
+        if sd is None or not os.path.isdir(sd.z):
+            sd = cls._inst[os.getpid()] = cls()
+        sd.close()
+        return sd
+
+    def path(self, *parts):
+        return os.path.join(self.root, *parts)
+
+    def close(self):
+        for base in (self.root, self.z):
+            for name in os.listdir(base):
+                p = os.path.join(base, name)
+                if p == self.z:
+                    continue
+                if os.path.isdir(p) and not os.path.islink(p):
+                    shutil.rmtree(p, ignore_errors=True)
+                else:
+                    os.unlink(p)
+
 
 def adopt(session, sandbox, budget=BUDGET):
     """Wrap an existing (resumed) Session in a harness Sess."""
@@ -160,7 +199,7 @@ def boundary_state(s):
 
 
 def run_reference(case):
-    sb = Sandbox()
+    sb = Scratch.get()
     try:
         s, o0 = prepare(sb, case)
         calls = []
@@ -181,7 +220,7 @@ def run_reference(case):
 
 def run_interrupted(case, k):
     """-> (stage, detail) on trouble or ('done', (output, obs, files, labels))."""
-    sb = Sandbox()
+    sb = Scratch.get()
     s = a = None
     try:
         s, _ = prepare(sb, case)
@@ -360,7 +399,7 @@ def check_resume(case, res):
     res.nt(bool(seen & {'k:in-for', 'k:in-while', 'k:in-gosub', 'k:in-error-handler',
                         'k:file-open'}))
     res.label('boundaries:%s' % ('1-10' if len(calls) <= 10 else '11-30' if len(calls) <= 30
-                                 else '31-90' if len(calls) <= 90 else '>90'))
+                                 else '31-60' if len(calls) <= 60 else '>60'))
     if ref.errors:
         res.label('program-ends-in-error')
     return res
@@ -491,9 +530,14 @@ def run_tamper(shard, nshards, tier, seed, ev):
                         'the unaltered state file does not load')
         n = 0
         for pos in range(shard, len(data), nshards):
+            if tier == 'quick' and 2048 <= pos < len(data) - 2048 and (pos // nshards) % 4:
+                continue        # CRC-32 covers the payload uniformly: every 4th byte in the middle
             if tier == 'quick' and pos >= 24:
-                # any single-byte change of the payload is a CRC-32 mismatch: one flip + one cut
-                alts = [(('xor1', 'xor80', 'zero', 'ff')[pos % 4], None), ('trunc', None)]
+                # any single-byte change of the payload is a CRC-32 mismatch: one flip per byte,
+                # a cut at every 8th byte and at every byte of the first and last 64
+                alts = [(('xor1', 'xor80', 'zero', 'ff')[pos % 4], None)]
+                if pos % 8 == 0 or pos < 88 or pos >= len(data) - 64:
+                    alts.append(('trunc', None))
             else:
                 alts = [('xor1', None), ('xor80', None), ('zero', None), ('ff', None),
                         ('trunc', None)]
@@ -832,7 +876,7 @@ def strat_resume():
 
 def units(tier):
     return [
-        Unit('resume', 'hyp', shards=16, examples={'quick': 5, 'thorough': 190},
+        Unit('resume', 'hyp', shards=16, examples={'quick': 3, 'thorough': 190},
              strategy=strat_resume, per_case_timeout=300.0),
         Unit('tamper', 'bulk', shards=16, run=run_tamper, exhaustive=True),
     ]
